@@ -253,6 +253,46 @@ def scan_assumptions(lines, origin):
     return found
 
 
+GHOST_START = ('proof {', 'proof{', 'let ghost', 'assert(', 'assert forall', 'assert ', '//', '#[')
+CLAUSE_START = ('invariant', 'ensures', 'requires', 'decreases')
+
+
+def exec_annotation_lines(lines, origin, fns):
+    """annotation lines inside the bodies of /repo functions that are NOT ghost code (proof blocks, ghost lets, assertions,
+    contract / invariant clauses, attributes, comments).  Verus itself guarantees that ghost code cannot influence
+    executable behaviour; what remains is listed so that it can be checked against the allow-list (T11 `else { proof }`
+    wrappers, the T17 rebinding of `mut self`)."""
+    found = []
+    for f in fns:
+        if f.mode != 'exec' or not f.has_body or f.code_lines == 0:
+            continue
+        depth = 0
+        clause = False
+        for q in range(f.start - 1, f.end):
+            t = lines[q]
+            s = t.strip()
+            if origin[q][0] != 'A':
+                clause = False
+                if depth > 0:
+                    depth += _nocomment(t).count('{') - _nocomment(t).count('}')
+                continue
+            c = _nocomment(t)
+            if depth > 0:
+                depth += c.count('{') - c.count('}')
+                continue
+            if s == '' or s.startswith(GHOST_START):
+                depth += c.count('{') - c.count('}')
+                depth = max(depth, 0)
+                continue
+            if s.startswith(CLAUSE_START):
+                clause = True
+                continue
+            if clause:
+                continue
+            found.append({'fn': f.path, 'line': q + 1, 'text': s[:120], 'origin': list(origin[q])})
+    return found
+
+
 def _verus_once(unit, out_rs, scratch, lines, origin, rep, rlimit_mult, extra_args, t_extract):
     fns = index_functions(lines, origin)
     cmd = ['verus', out_rs, '--num-threads', str(os.cpu_count() or 8), '--error-format=json', '--output-json', '--time-expanded']
@@ -371,6 +411,7 @@ def run_verus(unit, repo, scratch, seed=0, rlimit_mult=1.0, extra_args=None, tag
     res['errors'] = synthetic + [e for e in res['errors'] if 'loop must have a decreases clause' not in e['message']]
     # the sites of the synthetic errors refer to the first emission; re-anchor them by function only
     res['assumption_scan'] = scan_assumptions(lines, origin)
+    res['exec_annotations'] = exec_annotation_lines(lines, origin, fns)
     return res
 
 
